@@ -375,6 +375,39 @@ def unicodify(rng, j):
     return j
 
 
+def gen_derived(rng, env, name, inps, n):
+    """Recipes for instances changed after construction (pure)."""
+    fields = flat_fields(env, name)
+    out = []
+    if len(inps) < 2:
+        return out
+
+    def has(inp, f):
+        return f[1] in inp or f[0] in inp
+
+    def val(inp, f):
+        return inp[f[1]] if f[1] in inp else inp.get(f[0])
+
+    for _ in range(4 * n):
+        if len(out) >= n:
+            break
+        a, b = rng.sample(inps, 2)
+        op = rng.choice(["inplace", "inplace", "inplace", "nested-assign", "copy", "construct"])
+        if op == "construct":
+            out.append({"$derive": op, "a": a, "b": b})
+            continue
+        if op == "inplace":
+            cands = [f for f in fields if f[3] and isinstance(f[2], list) and f[2][0] in ("list", "set", "dict", "obj") and has(b, f)
+                     and val(b, f) not in ([], {})]
+        elif op == "nested-assign":
+            cands = [f for f in fields if _single_obj(f[2]) and has(a, f) and has(b, f) and isinstance(val(a, f), dict) and val(b, f)]
+        else:
+            cands = [f for f in fields if has(b, f)]
+        if cands:
+            out.append({"$derive": op, "a": a, "b": b, "field": rng.choice(cands)[0]})
+    return out
+
+
 # ---- mutations of an input (for the parser acceptance comparison)
 
 WRONG = [77, 1.5, True, "zz", "  ", "", [], {}, [1], ["a"], {"a": 1}, None, "PT1S", "meter", "3 m", -1]
@@ -807,6 +840,49 @@ def _exc(e):
     return f"{type(e).__name__}: {str(e)}".replace("\n", " | ")[:300]
 
 
+def load_text(text, form):
+    """Parse an output text with a plain loader (no schema involved)."""
+    if isinstance(text, bytes):
+        text = text.decode("utf-8")
+    if form in ("json", "bytes"):
+        return json.loads(text)
+    import yaml
+    return yaml.safe_load(text)
+
+
+def consts_in_text(inst, tv, path=""):
+    """Walk instance and parsed text in parallel: every schema value must show its declared constants."""
+    from pydantic import BaseModel
+    from metador_core.plugin.metaclass import UndefVersion
+    out = []
+    if isinstance(inst, BaseModel):
+        cls = UndefVersion._unwrap(type(inst)) or type(inst)
+        if not isinstance(tv, dict):
+            return [{"path": path, "problem": f"schema value printed as {type(tv).__name__}"}]
+        consts = getattr(cls, "__constants__", None) or {}
+        for k, v in consts.items():
+            if k not in tv or tv[k] != v:
+                out.append({"path": path, "const": k, "expected": v, "got": tv.get(k, "<absent>")})
+        for name, f in type(inst).__fields__.items():
+            if name in consts:
+                continue
+            v = getattr(inst, name, None)
+            if v is None:
+                continue
+            if f.alias not in tv:
+                out.append({"path": f"{path}/{f.alias}", "problem": "field holding a value is absent from the output"})
+                continue
+            out.extend(consts_in_text(v, tv[f.alias], f"{path}/{f.alias}"))
+    elif isinstance(inst, (list, tuple)) and isinstance(tv, list) and len(inst) == len(tv):
+        for i, (a, b) in enumerate(zip(inst, tv)):
+            out.extend(consts_in_text(a, b, f"{path}/{i}"))
+    elif isinstance(inst, dict) and isinstance(tv, dict):
+        for k, a in inst.items():
+            if k in tv:
+                out.extend(consts_in_text(a, tv[k], f"{path}/{k}"))
+    return out
+
+
 NONCANON: List[Dict[str, str]] = []   # per worker process: equal after a round trip, but printed differently
 
 
@@ -828,6 +904,13 @@ def oracle_instance(S, obj, consts, setfree, check_eq=True):
         if not probs:
             probs.append({"oracle": "serialise-raises", "form": "json_dict", "exc": _exc(e), "exc_type": type(e).__name__})
     for form, text in texts.items():
+        try:
+            miss = consts_in_text(obj, load_text(text, form))
+        except Exception as e:  # noqa: BLE001
+            miss = [{"problem": "plain loader failed: " + _exc(e)}]
+        if miss:
+            probs.append({"oracle": "constant-or-field-missing-in-output", "form": form, "missing": miss[:4],
+                          "text": text if isinstance(text, str) else text.decode("utf-8", "replace")})
         try:
             o2 = S.parse_raw(text)
         except Exception as e:  # noqa: BLE001
@@ -913,6 +996,51 @@ def materialise(j):
     return j
 
 
+def derive(S, env, main, r):
+    """An instance changed after construction.  r = {"$derive": op, "a": input, "b": input, "field": name}.
+    Values put in always come from another validated instance (b), so the result is a valid instance."""
+    from pydantic import BaseModel
+    op, n = r["$derive"], r.get("field")
+    f = {x[0]: x for x in flat_fields(env, main)}.get(n)
+    b = S.parse_obj(r["b"])
+    if op == "construct":      # the way the library's own parsers / partial models build instances
+        consts = flat_consts(env, main)
+        return S.construct(**{k: getattr(b, k) for k in b.__fields_set__ if k in S.__fields__ and k not in consts})
+    bv = getattr(b, n)
+    if bv is None:
+        return None
+    if op == "copy":
+        return S.parse_obj(r["a"]).copy(update={n: bv})
+    if op == "inplace":        # field left at its (mutable) default, then filled in place
+        a_in = {k: v for k, v in r["a"].items() if k not in (f[0], f[1])}
+        a = S.parse_obj(a_in)
+        av = getattr(a, n)
+        if isinstance(av, list):
+            av.extend(bv)
+        elif isinstance(av, set):
+            av.update(bv)
+        elif isinstance(av, dict):
+            for k, v in bv.items():
+                av[k] = v
+        elif isinstance(av, BaseModel):
+            for k in bv.__fields_set__:
+                if k in type(av).__fields__ and k not in (getattr(type(av), "__constants__", None) or {}):
+                    setattr(av, k, getattr(bv, k))
+        else:
+            return None
+        return a
+    if op == "nested-assign":  # attribute assignment on a nested instance
+        a = S.parse_obj(r["a"])
+        av = getattr(a, n)
+        if not isinstance(av, BaseModel) or not isinstance(bv, BaseModel) or type(av) is not type(bv):
+            return None
+        for k in bv.__fields_set__:
+            if k in type(av).__fields__ and k not in (getattr(type(av), "__constants__", None) or {}):
+                setattr(av, k, getattr(bv, k))
+        return a
+    return None
+
+
 def py_kwargs(env, classes, name, inp):
     """Constructor arguments with Python objects for the custom types where the input gives strings."""
     enc = _types()
@@ -973,12 +1101,20 @@ def eval_universe(job):
             consts = flat_consts(env, main)
             setfree = not has_set(env, mt)
             kinds = kinds_in(env, mt)
+            code_only = has_dict(env, mt)
             del NONCANON[:]
             for (inp, how) in inputs:
                 rec = {"input": inp, "how": how}
                 try:
                     if how == "ctor":
                         obj = S(**py_kwargs(env, classes, main, inp))
+                    elif how == "derived":
+                        obj = derive(S, env, main, inp)
+                        if obj is None:
+                            rec["built"] = False
+                            rec["err"] = "derive-skip"
+                            res["instances"].append(rec)
+                            continue
                     elif how in ("pyobj", "assign"):
                         obj = S.parse_obj(materialise(inp))
                         if how == "assign":     # validate_assignment: re-assign every given top-level field
@@ -1013,17 +1149,21 @@ def eval_universe(job):
                     rec["json_dict_back"] = back.json_dict() if back is not None else None
                 except Exception:  # noqa: BLE001
                     rec["json_dict_back"] = None
-                try:
-                    rec["tval"] = to_tval(env, mt, obj)
-                    rec["tval_back"] = to_tval(env, mt, back) if back is not None else None
-                except Untaggable as e:
-                    rec["untaggable"] = str(e)
+                if code_only:
+                    rec["code_only"] = True
+                else:
+                    try:
+                        rec["tval"] = to_tval(env, mt, obj)
+                        rec["tval_back"] = to_tval(env, mt, back) if back is not None else None
+                    except Untaggable as e:
+                        rec["untaggable"] = str(e)
                 tab, bad = norm_table(kinds, [inp, jd])
                 rec["tab"] = tab
                 res["norm_bad"].extend(bad)
                 # the same input through indirections of the class: the version-less marker subclass the
                 # plugin groups hand out (bases = (UndefVersion, S)) and a plain subclass
-                if len([r_ for r_ in res["instances"] if r_.get("variants_run")]) < job.get("n_variants", 3) and not expl:
+                if (len([r_ for r_ in res["instances"] if r_.get("variants_run")]) < job.get("n_variants", 3) and not expl
+                        and how != "derived"):
                     rec["variants_run"] = True
                     for via, V in variants(S):
                         try:
@@ -1301,6 +1441,8 @@ def shrink_case(uni, inp, how, oracle_kind):
     """ddmin over the main class's own fields, keeping a failure of the same oracle."""
     env = env_of(uni)
     main = env[uni["main"]]
+    if how == "derived":
+        return uni, inp
 
     def variant(fields):
         _SHRINK_N[0] += 1
@@ -1372,6 +1514,7 @@ def run(ctx: vlib.Ctx):
             inputs.append((gen_obj_input(rng, env, uni["main"]), how))
         for _ in range(2):
             inputs.append((unicodify(rng, gen_obj_input(rng, env, uni["main"])), "obj-unicode"))
+        inputs.extend((r_, "derived") for r_ in gen_derived(rng, env, uni["main"], [x[0] for x in inputs[:n_inst]], ctx.budget(5, 10)))
         if kinds_in(env, ["obj", uni["main"]]):
             for i in range(ctx.budget(4, 8)):
                 inputs.append((gen_obj_input(rng, env, uni["main"], py=True), "assign" if i % 4 == 3 else "pyobj"))
@@ -1380,7 +1523,7 @@ def run(ctx: vlib.Ctx):
         if has_expl:
             inputs.append((gen_obj_input(rng, env, uni["main"], explicit_none=True), "explicit-none"))
         mutants = []
-        for (inp, how) in inputs[: n_inst]:
+        for (inp, how) in ([] if has_dict(env, ["obj", uni["main"]]) else inputs[: n_inst]):
             for _ in range(2):
                 m = mutate(rng, env, uni["main"], inp)
                 if m is not None:
@@ -1504,6 +1647,7 @@ def run(ctx: vlib.Ctx):
                       sig_obj={"kind": "normaliser", "ckind": b["ckind"]})
 
     # ---- 4. model vs code
+    n_code_only = 0
     disagreements: List[Dict[str, Any]] = []
     non_validation: List[Dict[str, Any]] = []
     dcases, dmeta = [], []
@@ -1512,6 +1656,9 @@ def run(ctx: vlib.Ctx):
         if res["status"] != "ok":
             continue
         env = env_of(job["uni"])
+        if has_dict(env, ["obj", job["uni"]["main"]]):
+            n_code_only += 1
+            continue
         mty = model_ty(env, ["obj", job["uni"]["main"]])
         for rec in res["instances"]:
             if not rec.get("built"):
@@ -1623,7 +1770,8 @@ def run(ctx: vlib.Ctx):
         "instances_built": built, "min_instances_per_main_class": min(per_class_built) if per_class_built else 0,
         "field_type_histogram": type_hist, "installed": inst_summary,
         "mutants": len(pcases), "parser_agreement": acc, "explicit_none_instances": n_expl,
-        "object_built_noncanonical_instances": n_noncanon, "build_modes": _hist(rec["how"] for _j, rec in dmeta),
+        "object_built_noncanonical_instances": n_noncanon, "universes_code_only_dict_fields": n_code_only,
+        "all_build_modes": _hist(rec["how"] for res in results if res["status"] == "ok" for rec in res["instances"] if rec.get("built")), "build_modes": _hist(rec["how"] for _j, rec in dmeta),
         "dump_cases": len(dcases),
     }
     cov["coq_crosscheck"] = {"dump": xc, "parse": xc2}
